@@ -89,7 +89,48 @@ def compute():
 
         visit(tree, [])
     return {"c06_resume_sites_allowlisted": bool(sites_ok and seen_sites >= 8),
-            "c06_module_state_allowlisted": bool(state_ok)}
+            "c06_module_state_allowlisted": bool(state_ok),
+            "c06_trim_depth_within_entry": _trim_fact()}
+
+
+def _trim_fact():
+    """the depth to which a RUNNING frame's value stack is read (handler_depth of inspect_frame) is
+    only ever the depth of an exception-table entry that CONTAINS f_lasti (`start <= lasti_before <= end`)
+    or 0: reading more slots than that touches dead (possibly freed) objects"""
+    try:
+        tree = ast.parse(open(os.path.join(REPO, "stackscope", "_lowlevel_cpython_311.py")).read())
+    except Exception:
+        return False
+    fn = next((n for n in ast.walk(tree) if isinstance(n, ast.FunctionDef) and n.name == "inspect_frame"), None)
+    if fn is None:
+        return False
+    stores = []
+    ok = True
+
+    def visit(node, guards):
+        nonlocal ok
+        if isinstance(node, ast.Assign) and any(isinstance(t, ast.Name) and t.id == "handler_depth" for t in node.targets):
+            stores.append(node)
+            is_zero = isinstance(node.value, ast.Constant) and node.value.value == 0
+            guarded = any(g for g in guards)
+            if not (is_zero or guarded):
+                ok = False
+        if isinstance(node, ast.If):
+            t = node.test
+            contains = (isinstance(t, ast.Compare) and len(t.ops) == 2 and all(isinstance(o, ast.LtE) for o in t.ops)
+                        and isinstance(t.left, ast.Name) and t.left.id == "start"
+                        and isinstance(t.comparators[0], ast.Name) and t.comparators[0].id == "lasti_before"
+                        and isinstance(t.comparators[1], ast.Name) and t.comparators[1].id == "end")
+            for ch in node.body:
+                visit(ch, guards + [contains])
+            for ch in node.orelse:
+                visit(ch, guards + [False])
+            return
+        for ch in ast.iter_child_nodes(node):
+            visit(ch, guards)
+
+    visit(fn, [])
+    return bool(ok and len(stores) >= 2)
 
 
 if __name__ == "__main__":
